@@ -170,6 +170,50 @@ def task_levels(ctx, lname, boundaries, R=1.3):
   prove_close(ctx, 'log_sigma_integral.definition', logint, [T], sp5, config=conf)
 
 
+def task_integer_data(ctx, lname, boundaries):
+  """The same calculus on integer-valued column data STORED as int64 / int32 (level indices, counts, categorical masks): integrals,
+  cumulative sums (both strategies), centred differences and centred advection of an integer field equal the documented formulas
+  evaluated on the real values.  The functions are traced with an integer argument; witnesses are integer arrays."""
+  from dinosaur import sigma_coordinates as sc, jax_numpy_utils as jnu
+  b = np.asarray(boundaries, float)
+  coords = sc.SigmaCoordinates(b)
+  K = coords.layers
+  ctx.encoded(sc.cumulative_sigma_integral, sc.sigma_integral, sc.centered_difference, sc.centered_vertical_advection, jnu.cumsum, jnu.reverse_cumsum)
+  dsig = np.diff(b); cen = (b[1:] + b[:-1]) / 2
+  for dt in ('int64', 'int32'):
+    for shape, axis in (((K, 2, 1), -3), ((2, K), 1)):
+      ax = axis % len(shape)
+      c = dict(levels=lname, K=K, shape=list(shape), axis=axis, data_dtype=dt, values='integers in [-4, 4]')
+      sp = Space(bits=12)
+      x = harness.with_dtype(sp, PolyArr.variables(sp, 'x', shape, lo=-4.0, hi=4.0), dt)
+      dshape = tuple(K - 1 if i == ax else s_ for i, s_ in enumerate(shape))
+      w = PolyArr.variables(sp, 'w', dshape)
+      bshape = [1] * len(shape); bshape[ax] = K
+      ds = dsig.reshape(bshape)
+      tri = np.tril(np.ones((K, K)))
+      d_cc = np.diff(cen).reshape([K - 1 if i == ax else 1 for i in range(len(shape))])
+      col_shape = tuple(1 if i == ax else s_ for i, s_ in enumerate(shape))
+      zero_slab = np.zeros(col_shape)
+
+      def integrals(x):
+        xr = x.astype(jnp.float64)
+        pre = lambda t: jnp.moveaxis(jnp.einsum('ij,...j->...i', tri, jnp.moveaxis(t, ax, -1)), -1, ax)
+        return ((sc.sigma_integral(x, coords, axis=axis), sc.cumulative_sigma_integral(x, coords, axis=axis),
+                 sc.cumulative_sigma_integral(x, coords, axis=axis, cumsum_method='jax'),
+                 jnu.cumsum(x, axis, method='dot'), jnu.cumsum(x, axis, method='jax')),
+                (jnp.sum(xr * ds, axis=ax, keepdims=True), pre(xr * ds), pre(xr * ds), pre(xr), pre(xr)))
+      prove_close(ctx, 'integer_data.integrals_and_cumulative_sums', integrals, [x], sp, config=c, scale_floor=1.0)
+      if K >= 2:
+        def differences(x, w):
+          xr = x.astype(jnp.float64)
+          dx = (jax.lax.slice_in_dim(xr, 1, K, axis=ax) - jax.lax.slice_in_dim(xr, 0, K - 1, axis=ax)) / d_cc
+          wd = jnp.concatenate([zero_slab, w * dx, zero_slab], axis=ax)
+          lo = jax.lax.slice_in_dim(wd, 0, K, axis=ax); hi = jax.lax.slice_in_dim(wd, 1, K + 1, axis=ax)
+          return ((sc.centered_difference(x, coords, axis=axis), sc.centered_vertical_advection(w, x, coords, axis=axis)),
+                  (dx, -0.5 * (lo + hi)))
+        prove_close(ctx, 'integer_data.centered_difference_and_advection', differences, [x, w], sp, config=c, scale_floor=1.0)
+
+
 def task_validation(ctx, K):
   """SigmaCoordinates(boundaries) with SYMBOLIC boundaries: the real constructor is executed on every feasible path
   (decision-replay exploration, branch feasibility by z3); accepted  <=>  strictly increasing from 0 to 1 (to np.isclose tolerance)."""
@@ -287,6 +331,8 @@ def make_tasks(tier, seed):
   for K in (1, 2, 3) if tier == 'quick' else (1, 2, 3, 4):
     tasks.append(dict(name=f'validation-K{K}', fn='task_validation', kw=dict(K=K)))
   tasks.append(dict(name='validation-nonfinite', fn='task_validation_nonfinite', kw={}))
+  for n in ['dy3', 'un4'] + (['eq5', 'dy5'] if tier != 'quick' else []):
+    tasks.append(dict(name=f'integer-data-{n}', fn='task_integer_data', kw=dict(lname=n, boundaries=LS[n].tolist())))
   return tasks
 
 
